@@ -121,7 +121,8 @@ def cases(tier):
         cfgs += [('cf2d', (2, 3), 'stored', True, layout, None), ('cf2d', (2, 2), 'none', True, layout, None)]
         cfgs += [('shoc_simple', (2, 2), 'stored', True, layout, None)]
         cfgs += [('shoc_standard', (2, 2), 'none', True, layout, ((0, 0), (1, 1), (2, 2), (0, 2)))]
-    cfgs += [('cf2d', (3, 2), 'none', False, 'transposed', ((0, 0), (1, 1), (2, 0))),
+    cfgs += [('cf2d', (2, 3), 'misdim', True, 'plain', ((0, 1),)), ('cf1d', (2, 3), 'misdim', True, 'plain', ()),
+             ('cf2d', (3, 2), 'none', False, 'transposed', ((0, 0), (1, 1), (2, 0))),
              ('shoc_standard', (2, 3), 'none', True, 'transposed', ((1, 1), (1, 2), (2, 3)))]
     if not q:
         cfgs += [('cf1d', (2, 4), 'none', True, 'transposed', ()), ('cf1d', (4, 2), 'stored', True, 'plain', ()),
